@@ -91,15 +91,17 @@ def resolve(path):
 
 def compile_units(ob, work, cc, extra_defs, native):
     """compile every unit of the obligation with cc (goto-cc or gcc); returns object list"""
-    inc = ["-I", SRC, "-I", work, "-I", os.path.join(ROOT, "model"), "-I", os.path.join(ROOT, "harness")]
+    inc = ["-I", SRC, "-I", work, "-I", os.path.join(ROOT, "model"), "-I", os.path.join(ROOT, "harness"),
+           "-I", os.path.join(ROOT, "model", "wrap")]
     objs = []
     units = [ob["harness"]] + list(ob.get("units", [])) + list(ob.get("model", [])) + ["model/nd_log.c"]
     if native:
         units.append("model/replay_main.c")
     for i, u in enumerate(units):
         flags = list(BASE_CFLAGS) + inc + ["-D" + d for d in ob.get("defines", [])] + ["-D" + d for d in extra_defs]
-        for inc_file in ob.get("include", []):
-            flags += ["-include", resolve(inc_file)]
+        if u.startswith("src/") or u.startswith("model/wrap/") or ob.get("include_all"):
+            for inc_file in ob.get("include", []):
+                flags += ["-include", resolve(inc_file)]
         flags += ["-D" + d for d in ob.get("unit_defines", {}).get(u, [])]
         if native:
             flags += ["-g", "-O0", "-fsanitize=address,undefined", "-fno-sanitize-recover=undefined",
@@ -336,6 +338,12 @@ def extract_nd(trace):
 
 def summarize_trace(trace, limit=40):
     out = []
+    watch = [w for w in os.environ.get("VERIF_TRACE_VARS", "").split(",") if w]
+    if watch:
+        for step in trace:
+            if step.get("stepType") == "assignment" and any(step.get("lhs", "") == w or step.get("lhs", "").startswith(w + ".") or step.get("lhs", "").startswith(w + "[") for w in watch):
+                out.append("  %s = %s @%s" % (step.get("lhs"), step.get("value", {}).get("data", step.get("value", {}).get("name")), (step.get("sourceLocation") or {}).get("line")))
+        return out[-400:]
     for step in trace:
         st = step.get("stepType")
         if st == "function-call":
